@@ -1,7 +1,94 @@
-/* reach the static functions of the CLI (set_aln_type, run_kalign) and rename main */
+/* reach the static functions of the CLI (set_aln_type, run_kalign) and rename main.
+
+   For the `cli` op (ops_cli.c) the front end is run as it is, but what it reaches is observed instead of executed:
+   `isatty`, `exit` and the four library entry points used by run_kalign.c are renamed (only inside this translation unit)
+   to the wrappers below.  With kv_cli_active == 0 every wrapper forwards to the real function. */
+#include <stdio.h>
+#include <stdlib.h>
+#include <string.h>
+#include <unistd.h>
+#include <getopt.h>
+#include "tldevel.h"
+#include "tlmisc.h"
+#include "kalign/kalign.h"
+#include "parameters.h"
+
+int kv_cli_active = 0;      /* 1: observe, do not execute */
+int kv_cli_tty = 1;         /* answer of isatty() while active */
+int kv_cli_fail_at = -1;    /* index (0-based, in call order) of the library call that reports FAIL; -1: none */
+int kv_cli_ncalls = 0;
+FILE *kv_cli_log = NULL;
+
+static void kv_cli_hex(const char *s)
+{
+        if(!s){ fputs("NULL", kv_cli_log); return; }
+        if(!*s){ fputc('-', kv_cli_log); return; }
+        for(const unsigned char *p = (const unsigned char*)s; *p; p++) fprintf(kv_cli_log, "%02x", *p);
+}
+static int kv_cli_result(void)
+{
+        int r = (kv_cli_ncalls == kv_cli_fail_at) ? FAIL : OK;
+        kv_cli_ncalls++;
+        fflush(kv_cli_log);
+        return r;
+}
+static int kv_cli_isatty(int fd){ return kv_cli_active ? kv_cli_tty : isatty(fd); }
+static void kv_cli_exit(int st)
+{
+        if(kv_cli_active){
+                fprintf(kv_cli_log, "%sX,%d", kv_cli_ncalls ? ";" : "", st);
+                fflush(kv_cli_log);
+                _exit(0);
+        }
+        exit(st);
+}
+static int kv_cli_read_input(char *infile, struct msa **msa, int quiet)
+{
+        if(!kv_cli_active) return kalign_read_input(infile, msa, quiet);
+        fprintf(kv_cli_log, "%sR,", kv_cli_ncalls ? ";" : "");
+        kv_cli_hex(infile);
+        fprintf(kv_cli_log, ",%d", quiet);
+        int r = kv_cli_result();
+        if(r == OK && !*msa) *msa = (struct msa*)&kv_cli_active;        /* a non-NULL token, never dereferenced */
+        return r;
+}
+static int kv_cli_run(struct msa *msa, int n_threads, int type, float gpo, float gpe, float tgpe)
+{
+        if(!kv_cli_active) return kalign_run(msa, n_threads, type, gpo, gpe, tgpe);
+        union { float f; unsigned u; } a, b, c;
+        a.f = gpo; b.f = gpe; c.f = tgpe;
+        fprintf(kv_cli_log, "%sA,%d,%d,%08x,%08x,%08x", kv_cli_ncalls ? ";" : "", n_threads, type, a.u, b.u, c.u);
+        return kv_cli_result();
+}
+static int kv_cli_write_msa(struct msa *msa, char *outfile, char *format)
+{
+        if(!kv_cli_active) return kalign_write_msa(msa, outfile, format);
+        fprintf(kv_cli_log, "%sW,", kv_cli_ncalls ? ";" : "");
+        kv_cli_hex(outfile);
+        fputc(',', kv_cli_log);
+        kv_cli_hex(format);
+        return kv_cli_result();
+}
+static void kv_cli_free_msa(struct msa *msa)
+{
+        if(!kv_cli_active) kalign_free_msa(msa);
+}
+
 #define main kalign_cli_main
+#define isatty kv_cli_isatty
+#define exit kv_cli_exit
+#define kalign_read_input kv_cli_read_input
+#define kalign_run kv_cli_run
+#define kalign_write_msa kv_cli_write_msa
+#define kalign_free_msa kv_cli_free_msa
 #include "run_kalign.c"
 #undef main
+#undef isatty
+#undef exit
+#undef kalign_read_input
+#undef kalign_run
+#undef kalign_write_msa
+#undef kalign_free_msa
 int kv_set_aln_type(char *in, int *type){ return set_aln_type(in, type); }
 int kv_cli_main(int argc, char **argv){ return kalign_cli_main(argc, argv); }
 int kv_run_kalign(struct parameters *param){ return run_kalign(param); }
